@@ -483,6 +483,23 @@ theorem eval_pointwise_aux (e : Expr) : ∀ (ρ : Env) (n i : Nat), Pointwise e 
     intro ρ n i hp
     simp [Pointwise] at hp
 
+/-! ### vector literals -/
+
+theorem eval_vec_aux (ρ : Env) (es : List Expr) (ss : List Sc)
+    (h : es.map (eval ρ) = ss.map (fun s => .ok (.sc s))) :
+    eval ρ (Expr.vec es) = .ok (.vec ss) := by
+  induction es generalizing ss with
+  | nil =>
+    cases ss with
+    | nil => simp [Expr.vec, eval]
+    | cons s ss => simp at h
+  | cons e es ih =>
+    cases ss with
+    | nil => simp at h
+    | cons s ss =>
+      simp only [List.map_cons, List.cons.injEq] at h
+      simp [Expr.vec, eval, h.1, ih ss h.2, BinOp.eval]
+
 /-! ### the judge -/
 
 theorem closeB_iff_aux (tol : Rat) (v w : Val) : Val.closeB tol v w = true ↔ Val.Close tol v w := by
